@@ -331,6 +331,27 @@ def compare(ref, cur, vocab, local_names, local_names_ref=frozenset()):
                                 '%s = <empty> is now initialised outside the loop that rebuilt it'
                                 % nm))
                     return out
+    # P: the value of an assignment / argument now passes through copy.copy / deepcopy / list /
+    # dict / set / sorted: another object than the one every other holder of it sees
+    if len(ref['stmts']) == len(cur['stmts']) and same['compound']:
+        pos = _diff_positions(ref['stmts'], cur['stmts'])
+        if len(pos) == 1:
+            try:
+                ta, tb = ast.parse(ref['stmts'][pos[0]]), ast.parse(cur['stmts'][pos[0]])
+            except SyntaxError:
+                ta = tb = None
+            d = _first_difference(ta, tb) if ta is not None else None
+            if d is not None:
+                x, y = d
+                for old_, new_, what in ((x, y, 'now passed through'), (y, x, 'no longer passed through')):
+                    if isinstance(new_, ast.Call) and len(new_.args) == 1 and not new_.keywords and \
+                            isinstance(old_, ast.AST) and ast.dump(new_.args[0]) == ast.dump(old_) and \
+                            unparse(new_.func).rsplit('.', 1)[-1] in (
+                                'copy', 'deepcopy', 'list', 'dict', 'set', 'sorted', 'tuple',
+                                'frozenset', 'OrderedDict'):
+                        out.append(('value copied', '%s %s %s()' % (
+                            unparse(old_)[:50], what, unparse(new_.func))))
+                        return out
     # O: a library operation replaced by a near relative (split/rsplit, strip/lstrip,
     # copy/deepcopy, sorted/list, min/max, any/all, match/search/fullmatch, get/setdefault ...):
     # the two differ on some input by definition
